@@ -179,7 +179,7 @@ func runLive(b kit.Batch, r *kit.R) {
 			ops[i] = op{Write: rng.Intn(2) == 0, Addr: uint64(rng.Intn(64)) * 64, Size: size, Mask: rng.Intn(2)}
 		}
 		latency, robSize, bufSize := rng.Intn(30), 1+rng.Intn(8), 1+rng.Intn(4)
-		cut := timing.VTimeInPicoSec(rng.Intn(1000*(20+n*2)))
+		cut := timing.VTimeInPicoSec(rng.Intn(1000 * (20 + n*2)))
 		c.Desc(map[string]any{"path": "live", "ops": n, "zero_length_ops": zeroLen, "latency": latency, "rob": robSize, "buf": bufSize, "cut_ps": uint64(cut)})
 		a := buildLive(ops, latency, robSize, bufSize)
 		a.driver.TickLater()
